@@ -46,7 +46,20 @@ func shippedExamples() []seedProg {
 	return out
 }
 
+// drawSeed draws a seed program and, for generated ones, a placement (top level, inside a block / function / loop /
+// if arm / nested closure, or executed three times).
 func drawSeed(rt *rapid.T, examples []seedProg) seedProg {
+	sp := drawSeedRaw(rt, examples)
+	if !strings.HasPrefix(sp.Kind, "example:") {
+		if pl := drawPlacement(rt); pl != 0 {
+			sp.Src = place(sp.Src, pl)
+			sp.Kind += "/" + placementNames[pl]
+		}
+	}
+	return sp
+}
+
+func drawSeedRaw(rt *rapid.T, examples []seedProg) seedProg {
 	pick := func(label string, n int) int { return rapid.IntRange(0, n-1).Draw(rt, label) }
 	switch rapid.IntRange(0, 10).Draw(rt, "seedkind") {
 	case 10:
